@@ -124,5 +124,11 @@ CHECKS["C01"] = (
     "Theorem: in the loop skeleton shared by the off-policy routines the kept transitions are exactly the environment's step events (observation returned last before the action, action, reward, successor, termination flag), in order and across episode boundaries, and the policy is conditioned on that observation; the 'reset then unconditionally next_obs' variant is refuted with a witness. On every run train_dqn / nature_dqn / ddqn / ddqn_per / ddpg / td3 / td3_lap / sac / td7 / mrq / pets, sample_trajectories and the A2C / PPO collectors are executed on scripted environments; each kept transition is compared with the environment's own call log and with the extracted skeleton.",
     "Trusts: Coq kernel (no axioms), extraction, OCaml glue, harness and the scripted environment. The skeleton abstracts networks, updates and action choice as oracles; one configuration per routine (gate, limit position) is hand-written in harness/loopchecks.py. Tabular routines are covered through the recorded update arguments in the C14 check.",
 )
+CHECKS["C11"] = (
+    "DESIGN.md §2 C11",
+    "Coq proof (invariant of the training-loop skeleton: step counter = start + executed steps <= budget, the scripted environment's error state is unreachable, updates only inside the gate, stop exactly at the episode limit; for every script, budget, start, limit, limit position and gate) + correspondence with every routine on environments that raise on a step after episode end; schedulers and selectors against independent reference rules",
+    "Theorems about the loop skeleton: never more steps than the remaining budget and the returned counter equals start + executed; a finished episode is never stepped without reset; parameter updates happen only in iterations admitted by the gate (hence not before the warm-up threshold); the loop stops exactly when the requested number of episodes has finished. On every run all eleven off-policy routines are executed on scripted environments and compared with the extracted skeleton (returned counter, update iterations, reset count); generate_rollout, the round-robin and discounted-UCB selectors and train_uts / train_active_mt (with a contract-obeying stub routine) are checked against the property directly.",
+    "Trusts: Coq kernel (no axioms), extraction, OCaml glue, harness, the scripted environment. Updates are observed as parameter changes between consecutive env.step calls. The multi-task schedulers and the bandit have no Coq model: they are decided by the reference rules in harness/c11.py (float64 decision rule, arg-max margin > 1e-6); train_smt is exercised only by the repository's own test.",
+)
 _PENDING = "check not built yet in this revision (planned: Coq model + correspondence, see DESIGN.md §2)"
 NOT_APPLICABLE = {f"C{i:02d}": _PENDING for i in range(1, 21) if f"C{i:02d}" not in CHECKS}
